@@ -289,13 +289,18 @@ func RunV2(id, tier string, seed int64) int {
 					}
 				}
 			}
-			n := tierNum(tier, 6, 64)
+			n := tierNum(tier, 6, 32)
 			for _, j := range rng.Perm(len(all))[:n] {
 				opts = append(opts, all[j])
 			}
 		}
 		for oi, o := range opts {
+			// every step of a v2 job carries the whole expected contents: the 64 KiB values of the "huge"
+			// palette would make the job list tens of gigabytes; v2 stores values as opaque blobs
 			name := palette.Names[rng.Intn(len(palette.Names))]
+			for name == "huge" {
+				name = palette.Names[rng.Intn(len(palette.Names))]
+			}
 			pal := palette.New(name, sim.K, rng.Int63())
 			jobs = append(jobs, buildV2Job(fmt.Sprintf("b%d.o%d", bi, oi), b, pal, int64(o[0]), int8(o[1]), int8(o[2]), o[3] == 1, persistence))
 			combos++
@@ -366,7 +371,7 @@ func RunV2(id, tier string, seed int64) int {
 	if persistence {
 		ev.Coverage["rule"] = "IavlV2.tla behaviours in v2's normal form with checkpoint interval 1/2/3/1000 chosen per behaviour, commits, close/reopen and DeleteVersionsTo; at every reopen (and after every prune, once the writer goroutines had 300 ms) the database is closed and EVERY version the specification calls loadable (targets on, just after and far after a checkpoint) is loaded by a fresh handle - checkpoint root plus change-log replay - and compared in root hash, height, size, all keys and iterators; then the history continues from the latest version and later hashes are compared; height filter 0/1, eviction depth, sharding sampled"
 	} else {
-		ev.Coverage["rule"] = "IavlV2.tla behaviours in v2's normal form (empty versions, trees that shrink to empty) replayed on the v2 tree for sampled (quick) / all 64 (thorough) combinations of checkpoint interval {1,2,3,1000} x height filter {0,1} x eviction depth {-1,0,1,8} x sharding; at every commit the root hash must equal SHA-256 over the specification's tree (which the C02 check ties to v1), and Get/Has/Size/Height and forward, inclusive and reverse iterators over full and partial ranges must agree with the specification's contents; after every write the working tree's reads are compared too"
+		ev.Coverage["rule"] = "IavlV2.tla behaviours in v2's normal form (empty versions, trees that shrink to empty) replayed on the v2 tree for 6 (quick) / 32 (thorough) sampled of the 64 combinations of checkpoint interval {1,2,3,1000} x height filter {0,1} x eviction depth {-1,0,1,8} x sharding; at every commit the root hash must equal SHA-256 over the specification's tree (which the C02 check ties to v1), and Get/Has/Size/Height and forward, inclusive and reverse iterators over full and partial ranges must agree with the specification's contents; after every write the working tree's reads are compared too"
 	}
 	ev.Coverage["exhaustive"] = false
 	ev.Coverage["model_checking_runs"] = notes
